@@ -7,6 +7,7 @@ import (
 	"context"
 	"database/sql"
 	"fmt"
+	"io"
 	"path/filepath"
 	"sort"
 	"strings"
@@ -51,6 +52,11 @@ type c08Seq struct {
 	// afterExec, when set, runs right after the operation returned and before anything is read back
 	// (used to disarm injected faults)
 	afterExec func()
+	// search: when a dump shows a referenced part whose ref_count is below its row count, the
+	// history is continued (once) towards the consequence: share the part once more, delete owners
+	search    bool
+	searching bool
+	extras    bool // print `extra` lines (files outside GetPartIds) after every pass
 }
 
 func newC08Seq(ctx context.Context, out *verifx.Out, k *c08Stack, r *verifx.Rng, gcMode string) *c08Seq {
@@ -273,6 +279,111 @@ func (q *c08Seq) op(line string) {
 	if q.judge {
 		q.readBack()
 	}
+	if q.search && !q.searching {
+		q.continueUndercount(a)
+	}
+}
+
+// continueUndercount is the directed search of DESIGN §4 for this property: ref_count < rows of a
+// live part is the precondition of losing referenced content; the history is continued with
+// ordinary operations (one more sharer through the dedup index, then the owners deleted one by one)
+// so that the judge sees the consequence — or does not, if the code is right after all.
+func (q *c08Seq) continueUndercount(d *c08Dump) {
+	cnt := map[string]int{}
+	for _, r := range d.rows {
+		cnt[r.pid]++
+	}
+	reg := map[string]int{}
+	for _, e := range d.reg {
+		reg[e.PartId.String()] = int(e.RefCount)
+	}
+	var victim string
+	for _, r := range d.rows {
+		if c, ok := reg[r.pid]; ok && c < cnt[r.pid] && (victim == "" || q.ords.pid[r.pid] < q.ords.pid[victim]) {
+			victim = r.pid
+		}
+	}
+	if victim == "" {
+		return
+	}
+	q.searching = true
+	defer func() { q.searching = false; q.search = false }()
+	q.out.Line("search undercount part%d", q.ords.pid[victim])
+	var owners []string
+	seen := map[string]bool{}
+	var sample c08Row
+	for _, r := range d.rows {
+		if r.pid == victim {
+			sample = r
+			if !seen[r.owner] {
+				seen[r.owner] = true
+				owners = append(owners, r.owner)
+			}
+		}
+	}
+	sort.Slice(owners, func(i, j int) bool { return q.ords.owner[owners[i]] < q.ords.owner[owners[j]] })
+	type own struct{ bucket, key, vid, status, upload string }
+	var os_ []own
+	_ = database.WithTx(q.ctx, q.k.db, &sql.TxOptions{ReadOnly: true}, func(ctx context.Context, tx database.Tx) error {
+		for _, id := range owners {
+			var o own
+			var vid, up sql.NullString
+			if err := tx.SqlTx().QueryRowContext(ctx, "SELECT bucket_name, key, version_id, upload_status, upload_id FROM objects WHERE id = $1", id).
+				Scan(&o.bucket, &o.key, &vid, &o.status, &up); err != nil {
+				continue
+			}
+			o.vid, o.upload = vid.String, up.String
+			os_ = append(os_, o)
+		}
+		return nil
+	})
+	if len(os_) == 0 {
+		return
+	}
+	b0 := strings.TrimPrefix(os_[0].bucket, "bkt-")
+	// one more sharer: the same bytes under a fresh key (shares through the dedup index, if it points here)
+	si := q.k.storeOrd(sample.store)
+	if si < len(q.k.stores) {
+		var body []byte
+		st := q.k.stores[si]
+		_ = database.WithTx(q.ctx, q.k.db, &sql.TxOptions{ReadOnly: true}, func(ctx context.Context, tx database.Tx) error {
+			rc, err := st.ps.PartStore.GetPart(ctx, tx, *partstore.MustNewPartIdFromString(victim))
+			if err != nil {
+				return nil
+			}
+			defer rc.Close()
+			body, _ = io.ReadAll(rc)
+			return nil
+		})
+		if body != nil {
+			cls := "~"
+			if st.name == c08ColdStore {
+				cls = verifx.HexS("GLACIER")
+			}
+			q.op(fmt.Sprintf("op put %s zz-search %s ct=~ md=~ tags=~ cls=%s inm=0 im=~", b0, verifx.Hex(body), cls))
+		}
+	}
+	for i, o := range os_ {
+		if i >= 6 {
+			break
+		}
+		b := strings.TrimPrefix(o.bucket, "bkt-")
+		if o.status != "COMPLETED" {
+			for n, u := range q.c.uids {
+				if u.String() == o.upload {
+					q.op(fmt.Sprintf("op abort %s %s %d", b, o.key, n))
+				}
+			}
+			continue
+		}
+		q.c.learnVids()
+		vid := o.vid
+		tok := q.c.vidOut(&vid)
+		if o.vid == "" {
+			tok = "null"
+		}
+		q.op(fmt.Sprintf("op del %s %s vid=%s im=~", b, o.key, tok))
+	}
 }
 
 // op uppc <srcB> <srcK> <dstB> <dstK> <upload> <partNumber> svid=<tok>
@@ -339,6 +450,89 @@ func (q *c08Seq) gc(old bool) {
 		res = "err"
 	}
 	q.out.Line("gc %s %s fail=%s", age, res, joinOr(failed))
+	q.emitState()
+	q.emitExtras()
+}
+
+func (q *c08Seq) emitExtras() {
+	if !q.extras {
+		return
+	}
+	for i := range q.k.stores {
+		ex := q.k.extraFiles(i)
+		for _, kind := range []string{"tmp", "txbackup", "other"} {
+			if ex[kind] > 0 {
+				q.out.Line("extra %d %s %d", i, kind, ex[kind])
+			}
+		}
+	}
+}
+
+func (q *c08Seq) failedDeletes() []string {
+	var failed []string
+	for _, s := range q.k.stores {
+		s.ps.mu.Lock()
+		for _, id := range s.ps.failedNoTx {
+			if n, ok := q.ords.pid[id.String()]; ok {
+				failed = append(failed, fmt.Sprint(n))
+			}
+		}
+		s.ps.failedNoTx = nil
+		s.ps.mu.Unlock()
+	}
+	return failed
+}
+
+// gcSplit runs one collector pass that is paused after its observation ("obs") or after listing
+// the (only) store ("list"); the given op lines commit inside the window.
+func (q *c08Seq) gcSplit(mode string, lines []string) {
+	if mode == "list" && len(q.k.stores) != 1 {
+		mode = "obs"
+	}
+	if q.hasOrphans() {
+		time.Sleep(3 * c08Grace)
+	} else {
+		time.Sleep(2 * c08Grace)
+	}
+	q.failedDeletes()
+	paused, finish := q.k.gcStart(q.ctx, mode)
+	runLines := func() {
+		for _, l := range lines {
+			if strings.HasPrefix(l, "orphan ") {
+				var i int
+				fmt.Sscanf(l, "orphan %d", &i)
+				if i < len(q.k.stores) {
+					q.orphan(i, []byte("orphan-in-window"))
+				}
+			} else {
+				q.op(l)
+			}
+		}
+	}
+	if !paused { // the pass had nothing to do at that point: it ran as a whole
+		err := finish()
+		res := "ok"
+		if err != nil {
+			res = "err"
+		}
+		q.out.Line("gc old %s fail=%s", res, joinOr(q.failedDeletes()))
+		q.emitState()
+		runLines()
+		return
+	}
+	if mode == "obs" {
+		q.out.Line("gcpause obs")
+	} else {
+		q.out.Line("gcpause list 0")
+	}
+	q.emitState()
+	runLines()
+	err := finish()
+	res := "ok"
+	if err != nil {
+		res = "err"
+	}
+	q.out.Line("gcresume %s fail=%s", res, joinOr(q.failedDeletes()))
 	q.emitState()
 }
 
@@ -443,6 +637,7 @@ func c08Directed() [][]string {
 		return fmt.Sprintf("op cp %s %s %s %s svid=~ mdir=C tdir=C ct=~ md=~ tags=~ cls=%s", sb, sk, db, dk, c)
 	}
 	del := func(b, k, vid string) string { return fmt.Sprintf("op del %s %s vid=%s im=~", b, k, vid) }
+	app := func(b, k, body string) string { return fmt.Sprintf("op app %s %s %s off=~", b, k, h(body)) }
 	return [][]string{
 		{ // dedup: identical content under two keys shares one part; deleting one keeps the other
 			"op mkb b0", p("b0", "k0", "same", ""), p("b0", "k1", "same", ""), "gc", del("b0", "k0", "~"), "gc", del("b0", "k1", "~"), "gc",
@@ -469,14 +664,49 @@ func c08Directed() [][]string {
 		{ // orphans: swept once older than the grace window, referenced neighbours untouched
 			"op mkb b0", p("b0", "k0", "keep", ""), "orphan 0", "gc", "orphan 0", del("b0", "k0", "~"), "gc",
 		},
+		{ // versioning states x append x delete BY VERSION ID: a suspended-bucket append over a ULID version
+			// writes a new null version sharing the prefix; then in-place append; then an enabled-bucket append
+			"op mkb b0", "op ver b0 E", p("b0", "k0", "v-one", ""), "op ver b0 S", app("b0", "k0", "+susp"), "gc", del("b0", "k0", "v0"), "gc",
+			app("b0", "k0", "+inplace"), "op ver b0 E", app("b0", "k0", "+enabled"), "gc", del("b0", "k0", "null"), "gc", del("b0", "k0", "v1"), "gc",
+		},
+		{ // the same starting from an unversioned bucket; versions deleted oldest first and newest first
+			"op mkb b0", p("b0", "k0", "plain", ""), app("b0", "k0", "+a"), "op ver b0 E", app("b0", "k0", "+b"), app("b0", "k0", "+c"),
+			"op ver b0 S", app("b0", "k0", "+d"), "gc", del("b0", "k0", "v1"), del("b0", "k0", "v0"), "gc", del("b0", "k0", "null"), "gc",
+			"op ver b0 E", p("b0", "k1", "x", ""), "op ver b0 S", app("b0", "k1", "y"), cp("b0", "k1", "b0", "dir/k2", ""), del("b0", "k1", "v2"), "gc", del("b0", "k1", "null"), "gc",
+		},
+		{ // a part id repeated inside one object (identical multipart parts), same-store transitions, another sharer, owner deleted
+			"op mkb b0", "op mpu b0 k0 ct=~ md=~ tags=~ cls=~", "op upp b0 k0 0 1 " + h("repeated"), "op upp b0 k0 0 2 " + h("repeated"),
+			"op cmpl b0 k0 0 parts=~ inm=0 im=~", "op trans b0 k0 DEEP_ARCHIVE vid=~", "gc", "op trans b0 k0 STANDARD vid=~", "gc",
+			p("b0", "k1", "repeated", ""), cp("b0", "k0", "b0", "dir/k2", ""), del("b0", "k0", "~"), "gc", del("b0", "dir/k2", "~"), "gc",
+		},
+		{ // the collector repairs an over-counted registry row while a copy commits between its observation and its repair
+			"op mkb b0", p("b0", "k0", "raced", ""), "anom cnt", "gcsplit obs 1", cp("b0", "k0", "b0", "k1", ""), del("b0", "k1", "~"), "gc", "gc",
+			"anom cnt", "gcsplit obs 2", cp("b0", "k0", "b0", "k1", ""), p("b0", "dir/k2", "raced", ""), del("b0", "k0", "~"), del("b0", "k1", "~"), "gc", "gc",
+		},
+		{ // … and between the listing of a store and the condemnation of the listed ids
+			"op mkb b0", p("b0", "k0", "listed", ""), "orphan 0", "gcsplit list 2", p("b0", "k1", "listed", ""), del("b0", "k0", "~"), "gc",
+			"orphan 0", "gcsplit list 2", del("b0", "k1", "~"), p("b0", "k0", "listed", ""), "gc",
+		},
 	}
 }
 
 func (q *c08Seq) runLines(lines []string) {
-	for _, l := range lines {
+	for i := 0; i < len(lines); i++ {
+		l := lines[i]
 		switch {
 		case l == "gc":
 			q.gc(true)
+		case strings.HasPrefix(l, "gcsplit "): // gcsplit <obs|list> <n>: the next n lines commit inside the window
+			var mode string
+			var n int
+			fmt.Sscanf(l, "gcsplit %s %d", &mode, &n)
+			if i+n >= len(lines) {
+				n = len(lines) - 1 - i
+			}
+			q.gcSplit(mode, lines[i+1:i+1+n])
+			i += n
+		case strings.HasPrefix(l, "anom "):
+			q.anomaly(strings.TrimPrefix(l, "anom "))
 		case strings.HasPrefix(l, "orphan "):
 			var i int
 			fmt.Sscanf(l, "orphan %d", &i)
@@ -503,7 +733,7 @@ func runC08(args []string) {
 	if f.Tier == "thorough" {
 		stacks = append(stacks, "namedsql")
 	}
-	modes := []string{"mixed", "transition", "append"}
+	modes := []string{"mixed", "transition", "append", "versioning"}
 	k := 0
 	// directed cases on every stack, GC exactly where the history says
 	for _, sk := range stacks {
@@ -514,6 +744,7 @@ func runC08(args []string) {
 				out.Case(k, seed)
 				out.Line("cfg kind=seq %s gc=none grace=tiny", stk.cfgTokens())
 				q := newC08Seq(ctx, out, stk, verifx.NewRng(seed), "none")
+				q.search = true
 				q.runLines(lines)
 				out.End()
 				stk.close(false)
@@ -536,6 +767,7 @@ func runC08(args []string) {
 			out.Case(k, seed)
 			out.Line("cfg kind=seq %s gc=%s grace=tiny mode=%s", stk.cfgTokens(), gcMode, mode)
 			q := newC08Seq(ctx, out, stk, r, gcMode)
+			q.search = true
 			cg := &c08Gen{g: &s3hGen{r: r, c: q.c, mode: mode}, r: r}
 			func() {
 				defer func() {
@@ -546,6 +778,15 @@ func runC08(args []string) {
 				for i := 0; i < nops; i++ {
 					if r.Chance(1, 25) {
 						q.orphan(r.Intn(len(stk.stores)), r.Bytes(1+r.Intn(50)))
+					}
+					if r.Chance(1, 9) { // a pass paused between two of its transactions; 1-2 ops commit in the window
+						w := []string{cg.next()}
+						if r.Bool() {
+							w = append(w, cg.next())
+						}
+						i += len(w) - 1
+						q.gcSplit(verifx.Pick(r, []string{"obs", "list"}), w)
+						continue
 					}
 					q.op(cg.next())
 					q.maybeGC()
